@@ -159,7 +159,10 @@ def run(ctx, W, memo=None):
         ids = [dids[i] for i in dsel]
         g = W.geo[W.dst.name]
         seen, uniq = set(), []
-        for w in ids:   # pairwise distinct positions (the property's precondition)
+        for w in ids:   # pairwise distinct positions (the precondition of C01); C16 keeps the wells exactly as chosen
+            if p.get("uniq_dev") == "none":
+                uniq.append(w)
+                continue
             pos = g.encode(w, p.get("uniq_dev", W.dev))
             if pos not in seen:
                 seen.add(pos)
